@@ -721,6 +721,54 @@ func buildFamilies(c *famCtx, only string) ([]*family, error) {
 			16, false, cs))
 	}
 
+	// 6c. count bombs in generated container members: a map (top level, and eight of them as elements of a vector)
+	// that announces 2^31-1 entries and ends there.  A decoder that goes round its element loop without consuming
+	// input needs about a minute per such map.
+	if want("count-bomb") {
+		var cs []listedCase
+		hugeMap := func(tag byte) []byte { return []byte{tag<<4 | 8, 0x02, 0x7f, 0xff, 0xff, 0xff} }
+		for _, bl := range c.bases {
+			if !strings.Contains(bl.Name, "c05arrays::Conts") || bl.Kind == "block" {
+				continue
+			}
+			bl := bl
+			inputs := map[string][]byte{
+				"optional map<string,int> at tag 0 announcing 2^31-1 entries, input ends":             hugeMap(0),
+				"required map<int,string> at tag 1 announcing 2^31-1 entries, input ends":             hugeMap(1),
+				"optional map<string,vector<int>> at tag 3 announcing 2^31-1 entries, input ends":     append([]byte{0x18, 0x0c}, hugeMap(3)...),
+				"optional map<int,Elem> at tag 5 announcing 2^31-1 entries, input ends":               append([]byte{0x18, 0x0c}, hugeMap(5)...),
+				"optional vector<map<int,int>> at tag 4: 8 maps each announcing 2^31-1 entries, ends": nil,
+			}
+			v := []byte{0x18, 0x0c, 0x49, 0x00, 0x08}
+			for i := 0; i < 8; i++ {
+				v = append(v, hugeMap(0)...)
+			}
+			inputs["optional vector<map<int,int>> at tag 4: 8 maps each announcing 2^31-1 entries, ends"] = v
+			// 64 structs, each with an optional map announcing 2^31-1 entries right before its StructEnd
+			ve := []byte{0x18, 0x0c, 0x69, 0x00, 0x40}
+			for i := 0; i < 64; i++ {
+				ve = append(append(append(ve, 0x0a), hugeMap(0)...), 0x0b)
+			}
+			inputs["optional vector<MapElem> at tag 6: 64 structs whose optional map announces 2^31-1 entries and is followed by the StructEnd"] = ve
+			var labels []string
+			for l := range inputs {
+				labels = append(labels, l)
+			}
+			sort.Strings(labels)
+			for _, l := range labels {
+				in := inputs[l]
+				cs = append(cs, listedCase{label: "c05arrays::Conts: " + l, ents: filterOwners(c, bl.Owners, len(in)), make: func() []byte { return in }})
+			}
+			break
+		}
+		if len(cs) > 0 {
+			// (first in the list: a hit needs a confirmation run of a minute, which must not meet the end of the time budget)
+			fams = append([]*family{listFamily("count-bomb",
+				"struct with map and vector members generated at check time by the working-tree tars2go (C05Arrays.tars, struct Conts): a map announcing 2^31-1 entries at the end of the input, as a top-level member (optional and required), eight times as the elements of a vector and 64 times as the member of the structs of a vector",
+				1, false, cs)}, fams...)
+		}
+	}
+
 	// 7. nesting bombs
 	scales := []int{1, 1000, 100000, 1000000, 0} // 0 = as deep as the maximal packet allows
 	if want("nest-head") {
